@@ -121,7 +121,7 @@ func (u *unmarshaler) Unmarshal(b *bufio.Reader) (WarcRecord, int64, *Validation
 	if err != nil {
 		return nil, offset, validation, err
 	}
-	if l[len(l)-2] != '\r' {
+	if len(l) < 2 || l[len(l)-2] != '\r' {
 		switch u.opts.errSyntax {
 		case ErrWarn:
 			validation.addError(newSyntaxError(fmt.Sprintf("missing carriage return on line '%s'", bytes.Trim(l, sphtcrlf)), pos))
